@@ -1,6 +1,6 @@
 """C06 — comments preserved: text of every comment survives (kernel level)."""
 from mirsym import models_typst as T
-from . import comments, lists, flows, chains, mathargs
+from . import comments, lists, flows, chains, mathargs, imports
 
 EXPLANATION = (
     "Bounded symbolic execution (MIR->SMT, z3) of pretty/comment.rs: for every block comment '/*' + up to M code points + '*/' the "
@@ -27,6 +27,8 @@ def run(S):
     lists.report(S, 'C06', f2)
     f4 = mathargs.explore(S, 3 if S.tier == 'quick' else 4, want=('C06',))
     mathargs.report(S, 'C06', f4)
+    f5 = imports.explore(S, want=('C06',))
+    imports.report(S, 'C06', f5)
     f3 = chains.explore(S, want=('C06',))
     chains.report(S, 'C06', f3)
     S.assumptions += lists.ASSUMPTIONS
